@@ -151,6 +151,7 @@ Section ExecInv.
   Variable sch : schema.
   Variable P : list row -> Prop.
   Variable Inv : St -> Prop.
+  Hypothesis Hnil : P [].
   Hypothesis Hb : forall rows, P rows -> Inv (e_begin rows).
   Hypothesis Hi : forall s r s', Inv s -> e_insert s r = ROk s' -> Inv s'.
   Hypothesis Hd : forall s r, Inv s -> Inv (e_delete s r).
@@ -226,7 +227,8 @@ Section ExecInv.
         apply Hc. eapply ins_odku_inv; [apply Hb; exact HP|exact E].
     - destruct (upd_loop e_update sch a (e_begin rows) _ 0 0) as [[[s m] c]|] eqn:E; cbn; [|exact HP].
       apply Hc. eapply upd_loop_inv; [apply Hb; exact HP|exact E].
-    - apply Hc. apply fold_left_preserves; [|apply Hb; exact HP]. intros s r HI. apply Hd. exact HI.
+    - destruct (is_truncate w ord lim); cbn; [exact Hnil|].
+      apply Hc. apply fold_left_preserves; [|apply Hb; exact HP]. intros s r HI. apply Hd. exact HI.
   Qed.
 End ExecInv.
 
@@ -251,6 +253,7 @@ Proof.
   intros sch rows st H. unfold pk_exec.
   apply (exec_preserves pk_begin (pk_insert sch) (pk_delete sch) (pk_update sch) (pk_commit sch) sch
            (keys_nodup sch) (fun s => keys_nodup sch (p_rows s))).
+  - constructor.
   - intros r Hr. exact Hr.
   - intros s r s' HI E. rewrite (pk_insert_rows _ _ _ _ E). exact HI.
   - intros s r HI. exact HI.
